@@ -1829,8 +1829,9 @@ func (w *transformingWriter) Close() error {
 				w.rw.reportError(err)
 			}
 		}
-	} else if w.buffer != nil && w.buffer.Len() > 0 {
-		// Unfinished body!
+	} else if w.err == nil && w.buffer != nil && w.buffer.Len() > 0 {
+		// Unfinished body! (After an error, w.buffer may name a buffer that
+		// the failed message has already given back to the pool.)
 		if w.writingEnvelope {
 			w.rw.reportError(fmt.Errorf("handler only wrote %d out of %d bytes of message envelope", w.buffer.Len(), envelopeLen))
 		} else {
